@@ -579,3 +579,17 @@ func (e *Endpoint) Last() *MemConn {
 	}
 	return e.conns[len(e.conns)-1]
 }
+
+// Take returns the complete lines and raw bytes written since the last Take
+// and forgets them (bytes of an incomplete last line are kept).
+func (c *MemConn) Take() (lines []string, raw []byte) {
+	c.mu.Lock()
+	defer c.mu.Unlock()
+	lines = c.lines
+	raw = append([]byte(nil), c.out[:c.lineOff]...)
+	c.lines = nil
+	c.out = append([]byte(nil), c.out[c.lineOff:]...)
+	c.lineOff = 0
+	c.writes = nil
+	return
+}
